@@ -181,7 +181,7 @@ def run(tier, replay_file=None):
                             "history": [{k: v for k, v in x.items() if k not in ("q", "stats", "rounds", "handled")} for x in hist]})
             if len(R.violations) >= 20:
                 break
-    if len(h3) < 10 or cells < 500:
+    if not R.violations and (len(h3) < 10 or cells < 500):
         raise common.Machinery("too few cases generated (vacuous): %d bptk histories, %d cells" % (len(h3), cells))
     R.sample([{k: v for k, v in x.items() if k not in ("q", "rounds", "handled")} for x in h3[0]])
     # negative control
